@@ -101,6 +101,43 @@ fn shell_scenario(inp: &Input, m: usize) -> Option<Scenario> {
     Some(Scenario { cell, hs, gens, boundary, boxvol: 1. })
 }
 
+/// a generator surrounded by a ring of `k` neighbours in its own horizontal plane (its cell becomes a k-sided prism between the
+/// floor and the ceiling of the box) and one neighbour straight above, farther away than the ring: the bisector of that last
+/// neighbour removes all `k` corners of the prism's top, so the boundary cycle of ONE clip has `k` entries
+fn ring_cap_input(rng: &mut Rng, k: usize) -> Input {
+    use glam::DVec3;
+    let c = DVec3::new(0.5, 0.5, 0.3);
+    let mut gens = vec![c];
+    let phase = rng.f64();
+    for i in 0..k {
+        let a = (i as f64 + phase) / k as f64 * std::f64::consts::TAU;
+        // slightly uneven radii: no two ring neighbours are exactly equidistant
+        let r = 0.2 * (1.0 + 0.01 * rng.f64());
+        gens.push(c + DVec3::new(a.cos(), a.sin(), 0.) * r);
+    }
+    gens.push(c + DVec3::new(0.001, -0.002, 0.5));
+    let mut inp = Input { family: "ringcap3r_unit_z".to_string(), dim: 3, periodic: false, anchor: DVec3::ZERO, width: DVec3::ONE, gens };
+    inp.sanitize();
+    inp
+}
+
+/// the prism cell of the central generator after all ring neighbours, clipped by the cap neighbour
+fn ring_cap_scenario(inp: &Input) -> Option<Scenario> {
+    let dimn = inp.dimensionality();
+    let gens = vh::make_generators(&inp.gens, dimn);
+    let boundary = vh::Boundary::cuboid(inp.anchor, inp.width, false, dimn);
+    let cands = vh::nn_visit(&inp.gens, 0, inp.width, dimn, false, 1000);
+    let k = inp.gens.len() - 2;
+    if cands.len() < k + 2 {
+        return None;
+    }
+    let loc = gens[0].loc();
+    let cell = vh::cell_build_with(loc, 0, &gens, cands[..=k].to_vec(), &boundary);
+    let (j, shift) = cands[k + 1];
+    let hs = vh::bisector(loc, gens[j].loc(), j, shift);
+    Some(Scenario { cell, hs, gens, boundary, boxvol: 1. })
+}
+
 fn scenario(inp: &Input, rng: &mut Rng) -> Option<Scenario> {
     let n = inp.gens.len();
     if n < 2 {
@@ -274,6 +311,16 @@ pub fn run(out: &mut Out, rng: &mut Rng, thorough: bool) {
                     sid += 1;
                 }
             }
+        }
+    }
+    // one clip with a long boundary cycle (a k-sided prism loses its whole top)
+    for k in if thorough { vec![12usize, 31, 32, 33, 48, 64, 100, 257] } else { vec![31usize, 33, 70] } {
+        let inp = ring_cap_input(rng, k);
+        let mut r2 = rng.fork(19);
+        let sc = guarded(std::panic::AssertUnwindSafe(|| ring_cap_scenario(&inp)));
+        if let Ok(Some(sc)) = sc {
+            emit_scenario(out, &inp.family, sid, &sc, &mut r2, 2, if thorough { 12 } else { 4 });
+            sid += 1;
         }
     }
 }
